@@ -4,6 +4,7 @@ import (
 	"encoding/binary"
 	"fmt"
 	"sort"
+	"strings"
 	"time"
 
 	"go.nanomsg.org/mangos/v3"
@@ -477,7 +478,50 @@ func runReqSendDeadlineLeavesNothing(c *Ctx, sendMs, recvMs int) {
 	e.Finish()
 }
 
+// directed (C03 / C11): a Recv that is already waiting when its request is first handed to a pipe.  A best-effort Send
+// with no peer returns at once and leaves the request queued; Recv parks; a peer arrives and the request goes out —
+// the scheduler's wake-up is meant for a parked Send.  The Recv must stay parked, and get the reply when it comes.
+// The same with a Send still blocked in another goroutine when the peer arrives.
+func runReqRecvParkedBeforeScheduled(c *Ctx, bestEffort bool) {
+	e := NewExec(c, "m.req", req.NewProtocol(), "req")
+	e.timed, e.canonIDs = true, true
+	e.SetOpt(0, mangos.OptionRetryTime, "60000", time.Minute)
+	if bestEffort {
+		e.SetOpt(0, mangos.OptionBestEffort, "true", true)
+	}
+	snd := e.Send(0, nil, []byte{0x71, 0, 7})
+	rcv := e.Recv(0)
+	if !bestEffort && strings.Contains(lastObs(e), fmt.Sprintf("ret:%d:", rcv)) {
+		// a Recv issued while the Send is still blocked may be refused (no request yet): nothing to check then
+		e.Finish()
+		return
+	}
+	e.AddPipe(901)
+	early := false
+	for _, ev := range splitEvents(lastObs(e)) {
+		if ev.kind == "ret" && ev.call == rcv {
+			early = true
+			c.Violate(fmt.Sprintf("REQ: a Recv that was waiting when its request was first handed to a pipe returned %q at that moment, without a reply, deadline or cancel (best effort %v; Send call %d): %s", ev.err, bestEffort, snd, lastObs(e)), e.Replay())
+		}
+	}
+	if e.idKnown && !early {
+		e.InjectCanon(901, append(be32(0x80000001), 'o', 'k'))
+		got := false
+		for _, ev := range splitEvents(lastObs(e)) {
+			if ev.kind == "ret" && ev.call == rcv && ev.msg != nil {
+				got = true
+			}
+		}
+		if !got && !e.broken {
+			c.Violate(fmt.Sprintf("REQ: the reply to a request first transmitted while its Recv was already waiting was not delivered to that Recv (best effort %v): %s", bestEffort, lastObs(e)), e.Replay())
+		}
+	}
+	e.Finish()
+}
+
 func runC03(c *Ctx) {
+	runReqRecvParkedBeforeScheduled(c, true)
+	runReqRecvParkedBeforeScheduled(c, false)
 	c.Rep.Rule = "random histories on a real REQ protocol instance whose REP peers are played by the harness at message level: Send/Recv/Close on 1-3 contexts, replies carrying the current / a stale, cancelled, answered or other context's / a never-issued id, ids without the request bit, short bodies, duplicates, on any of 1-3 pipes; " +
 		"ids canonicalised to 0x80000000|k; every operation is checked against the Lean machine and every delivered reply against the context's current request; class = (operation, shape of outcome)"
 	n := 80
@@ -507,6 +551,7 @@ func runC03(c *Ctx) {
 }
 
 func runC04(c *Ctx) {
+	runReqRetransmitAfterFailedWrite(c)
 	c.Rep.Rule = "fault scripts on a real REQ protocol instance with a 70 ms retry time (and with retries disabled): connection loss at every lifecycle point (queued, in flight on a slow pipe, awaiting reply, answered, cancelled), new connections, silent peers, send failures, real sleeps across the retry interval; " +
 		"every (re)transmission is recorded with pipe, bytes and monotonic time and checked against the Lean machine (timers may fire once due, must have fired once overdue) and against the oracle: byte-identical, one pipe per transmission, never early, never after completion; class = (operation, shape of outcome)"
 	n := 40
